@@ -194,6 +194,20 @@ def s_case(draw):
         )
     )
     notes = sorted(([k, c, t, p, ks] for k, c, t, p, ks in raw), key=lambda n: (n[3], n[0], n[1]))
+    if nplayers >= 2 and draw(st.integers(0, 2)) == 0:
+        # routine chart: the next player's first note sits on the very beat of the previous player's last note, and a
+        # stop (or delay) sits on that beat
+        for p in range(nplayers - 1):
+            mine = [n for n in notes if n[3] == p]
+            if not mine:
+                continue
+            k = mine[-1][0]
+            notes = [n for n in notes if not (n[3] == p + 1 and n[0] <= k)]
+            notes.append([k, draw(st.integers(0, cols - 1)), "1", p + 1, None])
+            kind = draw(st.sampled_from(["stops", "delays"]))
+            if k not in [x for x, _ in tl[kind]]:
+                tl[kind] = sorted(tl[kind] + [[k, "0.75"]])
+        notes.sort(key=lambda n: (n[3], n[0], n[1]))
     return {"tl": tl, "cols": cols, "nplayers": nplayers, "notes": notes}
 
 
